@@ -210,6 +210,62 @@ func paths(c *mon.Ctx, cs gen.Case, id string) {
 				}
 			}
 		}
+		// P2b / P4b: the source is a *bytes.Buffer that the caller re-uses after the raw decode (what a proxy
+		// does with a pooled buffer): the raw body must not alias the source
+		{
+			src := bytes.NewBuffer(append(make([]byte, 0, len(in)+64), in...))
+			if raw, err := codec.DecodeRawFrame(src); err == nil {
+				src.Reset()
+				src.Write(bytes.Repeat([]byte{0xEE}, len(in)))
+				if !bytes.Equal(raw.Body, b[hl:]) {
+					viol("P2b-DecodeRawFrame/bytes.Buffer-reused", "raw-body-aliases-source")
+					ok = false
+				} else if f2, err := codec.ConvertFromRawFrame(raw); err != nil {
+					viol("P2b-DecodeRawFrame+Convert/bytes.Buffer-reused", "error:"+short(err))
+					ok = false
+				} else {
+					ok = check("P2b-DecodeRawFrame+Convert/bytes.Buffer-reused", f2, want, nil) && ok
+				}
+			}
+			src = bytes.NewBuffer(append(make([]byte, 0, len(in)+64), in...))
+			if h, err := codec.DecodeHeader(src); err == nil {
+				if rb, err := codec.DecodeRawBody(h, src); err == nil {
+					src.Reset()
+					src.Write(bytes.Repeat([]byte{0xEE}, len(in)))
+					if !bytes.Equal(rb, b[hl:]) {
+						viol("P4b-DecodeRawBody/bytes.Buffer-reused", "raw-body-aliases-source")
+						ok = false
+					}
+				}
+			}
+		}
+		// truncated stream (non-seekable): a raw path that reports success must have consumed header + declared
+		// length; with fewer bytes available it must report an error
+		if bl := len(b) - hl; bl > 0 {
+			cut := hl + int(hash(id)>>8)%bl
+			for _, path := range []string{"P2t-DecodeRawFrame", "P4t-DecodeHeader+DecodeRawBody", "P5t-DecodeHeader+DiscardBody"} {
+				cr := &countingReader{r: struct{ io.Reader }{bytes.NewReader(b[:cut])}}
+				var err error
+				switch path {
+				case "P2t-DecodeRawFrame":
+					_, err = codec.DecodeRawFrame(cr)
+				default:
+					var h *frame.Header
+					if h, err = codec.DecodeHeader(cr); err == nil {
+						if path == "P4t-DecodeHeader+DecodeRawBody" {
+							_, err = codec.DecodeRawBody(h, cr)
+						} else {
+							err = codec.DiscardBody(h, cr)
+						}
+					}
+				}
+				if err == nil {
+					viol(path+"/truncated-stream", "success-with-short-body")
+					ok = false
+				}
+			}
+			c.Count("truncated_streams", 1)
+		}
 		// P6: ConvertToRawFrame -> EncodeRawFrame -> DecodeFrame
 		f6 := bridge.ToLib(a, flag, bridge.NewVariant(mon.NewRand(c.Seed, hash(id)^uint64(ci)^6)))
 		if raw, err := codec.ConvertToRawFrame(f6); err != nil {
